@@ -23,8 +23,9 @@ rectangle rule (T = MS) satisfies it too.  For a unit impulse in the PSD array t
 carry the weight dfx dfy exactly, ring samples a weight in [0, 2 dfx dfy].
 
 Tolerances: k * eps * cond with k = 1e3 and cond = the sum of the non-negative terms being added
-(MS for integrals, (sum|h w|)^2 dx^2 / sum(w^2) for single PSD samples).  The measured rounding error of
-the repaired tree over the whole thorough scope is below 8 eps * cond, i.e. a margin of > 100.
+(sum((h wabs)^2)/sum(w^2) for integrals, (sum|h| wabs)^2 dx^2 / sum(w^2) for single PSD samples, where
+wabs >= |w| is the sum of the magnitudes of the terms a window sample is computed from).  The measured rounding error of
+the repaired tree over the whole scope is below 16 eps * cond (silent with k = 16), i.e. a margin of > 60.
 """
 import zlib
 
@@ -126,24 +127,30 @@ def user_window(kind, n0, n1):
 
 
 def window_choice(wname, h, dx):
-    """-> (argument for prysm, [(name, reference window)] candidates the implementation may have used)."""
+    """-> (argument for prysm, [(name, reference window, wabs)] candidates the implementation may have used).
+
+    wabs >= |w| is the sum of the magnitudes of the terms the window is computed from (1 + (r/rmax)^4 for welch,
+    1 for hann): the condition number of a window sample, which enters every tolerance (a welch sample at
+    r == rmax is pure rounding noise, so is the PSD of an impulse sitting there).
+    """
     n0, n1 = h.shape
-    hann = np.outer(ref_hann(n0), ref_hann(n1))
+    hann = ('hann', np.outer(ref_hann(n0), ref_hann(n1)), np.ones((n0, n1)))
     if wname == 'hann':
-        return 'hann', [('hann', hann)]
-    if wname == 'welch':
-        return 'welch', [('welch', ref_welch(n0, n1, dx))]
+        return 'hann', [hann]
     if wname.startswith('user-'):
         w = user_window(wname[5:], n0, n1)
-        return w.copy(), [(wname, w)]
+        return w.copy(), [(wname, w, np.abs(w))]
+    ww = ref_welch(n0, n1, dx)
+    welch = ('welch', ww, 2 - ww)
+    if wname == 'welch':
+        return 'welch', [welch]
     ys, xs = int(round(n0 * 0.02)), int(round(n1 * 0.02))
-    welch = ref_welch(n0, n1, dx)
     if ys == 0 or xs == 0:
-        return None, [('welch', welch), ('hann', hann)]
+        return None, [welch, hann]
     blocks = (h[:ys, :xs], h[-ys:, :xs], h[:ys, -xs:], h[-ys:, -xs:])
     if all((b == 0).all() for b in blocks):
-        return None, [('welch', welch)]
-    return None, [('hann', hann)]
+        return None, [welch]
+    return None, [hann]
 
 
 def sinusoid(n0, n1, ky, kx):
@@ -201,19 +208,20 @@ def judge_psd(R, out, h, dx, cands, wlabel, what, peak_bins=None, prefix='psd'):
     total = float(p.sum()) * dfx * dfy
     # which candidate window explains the output (automatic choice with empty corner blocks: either)
     scored = []
-    for name, w in cands:
+    for name, w, wabs in cands:
         hw = h * w
         S2 = float((w ** 2).sum())
         MS = float((hw ** 2).sum()) / S2
         ref = ref_psd(hw, dx) / S2
-        tolE = K * EPS * float(np.abs(hw).sum()) ** 2 * dx * dx / S2
-        pars_ok = abs(total - MS) <= K * EPS * MS
+        tolP = K * EPS * float(((h * wabs) ** 2).sum()) / S2
+        tolE = K * EPS * float(np.abs(h * wabs).sum()) ** 2 * dx * dx / S2
+        pars_ok = abs(total - MS) <= tolP
         elem_ok = bool((np.abs(p - ref) <= tolE).all())
-        scored.append((not (pars_ok and elem_ok), not pars_ok, name, MS, ref, tolE))
+        scored.append((not (pars_ok and elem_ok), not pars_ok, name, MS, ref, tolE, tolP))
     scored.sort(key=lambda t: (t[0], t[1]))
-    _, _, name, MS, ref, tolE = scored[0]
-    R.nontrivial(MS > 0)
-    ok = R.expect_close(total, MS, K * EPS * MS, f'{prefix}:parseval:{wlabel}',
+    _, _, name, MS, ref, tolE, tolP = scored[0]
+    R.nontrivial(MS > tolP)
+    ok = R.expect_close(total, MS, tolP, f'{prefix}:parseval:{wlabel}',
                         f'{what}: sum(psd) dfx dfy vs sum((h w)^2)/sum(w^2) [window {name}]')
     if ok:
         ok = R.expect_close(p, ref, tolE, f'{prefix}:spectrum-vs-axes:{cls}',
@@ -543,9 +551,9 @@ def run_methods(case, seed, R):
                 if pd.shape == (n0, n1) and pd.dtype.kind == 'f':
                     total = float(pd.sum()) / (n0 * n1 * dx * dx)
                     errs = []
-                    for name, w in cands:
+                    for name, w, wabs in cands:
                         MS = float(((h * w) ** 2).sum() / (w ** 2).sum())
-                        errs.append((abs(total - MS) - K * EPS * MS, name, MS))
+                        errs.append((abs(total - MS) - K * EPS * float(((h * wabs) ** 2).sum() / (w ** 2).sum()), name, MS))
                     errs.sort()
                     R.expect(errs[0][0] <= 0, 'Interferogram.psd:parseval', f'{what}.psd(): sum(psd) dfx dfy={total!r}, windowed mean square {errs[0][2]!r} ({errs[0][1]})')
                     R.nontrivial(errs[0][2] > 0)
@@ -710,7 +718,7 @@ def plan(tier, seed):
                   "'hann', 'welch', None}}; height maps: for shapes with <= 12 samples the complete quadratic-form basis (every delta_i and every "
                   'delta_i+delta_j; the PSD is a quadratic form of the data so the verdict covers every real map), otherwise every delta, a constant and one '
                   'seeded dense map; plus EVERY representable sinusoid (ky,kx).  Oracles: axes == (i-n//2)/(n dx) with an exact zero, Parseval, every PSD sample '
-                  'vs an explicit-matrix DFT placed on the returned axes, peak bins read off the returned axes for sinusoids/constant.  Non-trivial when h*w != 0', reset=rs),
+                  'vs an explicit-matrix DFT placed on the returned axes, peak bins read off the returned axes for sinusoids/constant.  Non-trivial when h*w != 0', reset=rs, chunk=3),
         ScopeUnit('auto_window', auto_cases, run_auto,
                   f'shapes {big} (2% corner blocks non-empty) x dx x all 16 zero/non-zero patterns of the four corner blocks x {{dense, constant}}: the automatic '
                   'choice must be welch iff all four blocks are zero, hann otherwise; through psd() and Interferogram.psd()', reset=rs),
@@ -722,7 +730,7 @@ def plan(tier, seed):
                   f'every shape in [3..{B}]^2 x dx x window {{ones, hann, welch}} x map {{constant, sinusoid(1,1), dense}}: edges = 0, every mid-point between consecutive '
                   'distinct sample radii, and the open upper end; EVERY pair of edges as frequencies (flow/fhigh, incl. one-sided) and as periods (wllow/wlhigh, incl. '
                   'one-sided); every ordered triple for additivity; neighbours for monotonicity; every band against the reference integral within the ring weight; '
-                  'period form == frequency form', reset=rs),
+                  'period form == frequency form', reset=rs, chunk=8),
         ScopeUnit('methods', meth_cases, run_methods,
                   f'every shape in [3..{B}]^2 x dx x map: Interferogram.psd (axes, r, Parseval, == psd()), Interferogram.bandlimited_rms on 4 quantile edges in both '
                   'forms (== function on the method\'s own PSD), total_integrated_scatter at 0 and 30 degrees', reset=rs),
